@@ -5,7 +5,7 @@ TEXTS = {
         "text": "Lean 4 theorem C01_format: for every well-formed UTF-8 input, configuration, parser behaviour and every wrapper behaviour "
                 "satisfying the frame contract, the formatter returns an output and it has the same non-blank characters in the same order as the input up to ASCII "
                 "case (case_changes_confined: a letter changes case only inside a parser-typed keyword, lower-cased as a whole, or inside the name span of a compiler directive; every other rule changes blanks only, exactly); proved through exact models of lexer, content rules, pipeline glue and reconstructor (for every counter "
-                "assignment). C01_format_any_search: with the exact model of the wrapper stage around an arbitrary search (Model/WrapStage, compared with the real stage on every case: wp, wcn, sx) no wrapper contract is assumed at all. Model tied to the code by per-stage differential execution; contract clauses evaluated on every case.",
+                "assignment). C01_format_any_search: with the exact model of the wrapper stage around an arbitrary search (Model/WrapStage, compared with the real stage on every case: wp, wcn, sx) no wrapper contract is assumed at all. C01_format_full: for the closed model of the whole formatter (formatFull: scanner, parser control flow, consolidators, rules, wrapper stage with the search inside, reconstructor; compared byte for byte with make_formatter().format() on every case of the `full` stream) the statement holds with no oracle and no contract whenever the model answers. Model tied to the code by per-stage differential execution; contract clauses evaluated on every case.",
         "design_ref": "DESIGN.md section 5 (C01)",
         "note": "Assumes (checked per case by the driver): WrapFrame (wrapper changes only blanks inside contents and keeps the token "
                 "vector) (the 'no dangling E3 byte in token contents' side condition is now a theorem: lex_total + lex_char_boundaries + valid_nd). "
